@@ -98,28 +98,43 @@ class BaseResponse:
         )
 
     @overload
-    def list_headers(self, *, as_bytes: Literal[True]) -> List[Tuple[bytes, bytes]]:
+    def list_headers(
+        self, *, as_bytes: Literal[True], replace: Optional[Mapping[str, str]] = None
+    ) -> List[Tuple[bytes, bytes]]:
         ...
 
     @overload
-    def list_headers(self, *, as_bytes: Literal[False]) -> List[Tuple[str, str]]:
+    def list_headers(
+        self, *, as_bytes: Literal[False], replace: Optional[Mapping[str, str]] = None
+    ) -> List[Tuple[str, str]]:
         ...
 
-    def list_headers(self, *, as_bytes):
+    def list_headers(self, *, as_bytes, replace=None):
         """
         Merge `self.headers` and `self.cookies` then returned as a list.
+
+        `replace` holds headers (lower-case names) that belong to the answer to one
+        request only: they take the place of the entries of `self.headers` with the
+        same name without being stored, so that a response object can answer
+        several requests at the same time.
         """
+        headers = [*self.headers.items()]
+        if replace:
+            headers = [
+                *((key, value) for key, value in headers if key not in replace),
+                *replace.items(),
+            ]
         if as_bytes:
             return [
                 *(
                     (key.encode("latin-1"), value.encode("latin-1"))
-                    for key, value in self.headers.items()
+                    for key, value in headers
                 ),
                 *((b"set-cookie", bytes(cookie)) for cookie in self.cookies),
             ]
         else:
             return [
-                *self.headers.items(),
+                *headers,
                 *(("set-cookie", str(cookie)) for cookie in self.cookies),
             ]
 
